@@ -307,16 +307,32 @@ func (e *Engine) newSentinelError(msg string) Value {
 }
 
 func (e *Engine) load(fr *frame, c *Cell) Value {
-	if c.Shared != nil && e.ev != nil {
-		return e.evLoad(fr, c)
+	if e.ev != nil && e.ev.active {
+		switch c.V.(type) {
+		case *StructVal, *ArrayVal:
+			// aggregates are trees of cells: each leaf decides for itself whether it is shared
+			return e.loadAggregate(fr, c)
+		}
+		if _, mut := e.isMutableCell(c); mut {
+			return e.evLoad(fr, c)
+		}
 	}
 	return e.copyVal(c.V)
 }
 
 func (e *Engine) store(fr *frame, c *Cell, v Value) {
-	if c.Shared != nil && e.ev != nil {
-		e.evStore(fr, c, v)
-		return
+	if e.ev != nil && e.ev.active {
+		if _, named := e.cellName(c); named {
+			if _, mut := e.isMutableCell(c); !mut {
+				if _, agg := c.V.(*StructVal); !agg {
+					if _, agg2 := c.V.(*ArrayVal); !agg2 {
+						e.noteMutable(c, "cell")
+					}
+				}
+			}
+			e.evStore(fr, c, v)
+			return
+		}
 	}
 	e.storeInto(c, v)
 }
@@ -324,7 +340,12 @@ func (e *Engine) store(fr *frame, c *Cell, v Value) {
 func (e *Engine) eval(fr *frame, v ssa.Value) Value {
 	switch in := v.(type) {
 	case *ssa.Alloc:
-		return PtrVal{C: e.newCell(e.zero(in.Type().(*types.Pointer).Elem()))}
+		c := e.newCell(e.zero(in.Type().(*types.Pointer).Elem()))
+		if e.ev != nil && e.ev.active {
+			c.Origin = e.originName(e.siteOf(fr, in))
+			c.Type = in.Type().(*types.Pointer).Elem()
+		}
+		return PtrVal{C: c}
 	case *ssa.UnOp:
 		return e.unop(fr, in)
 	case *ssa.BinOp:
@@ -379,10 +400,24 @@ func (e *Engine) eval(fr *frame, v ssa.Value) Value {
 	case *ssa.MakeMap:
 		mt := in.Type().Underlying().(*types.Map)
 		e.mapN++
-		return &MapVal{ID: e.mapN, KeyT: mt.Key(), ElemT: mt.Elem()}
+		m := &MapVal{ID: e.mapN, KeyT: mt.Key(), ElemT: mt.Elem()}
+		if e.trackCells {
+			e.allMaps = append(e.allMaps, m)
+		}
+		if e.ev != nil && e.ev.active {
+			m.Origin = e.originName(e.siteOf(fr, in))
+		}
+		return m
 	case *ssa.MakeChan:
 		e.chanN++
-		return &ChanVal{ID: e.chanN}
+		ch := &ChanVal{ID: e.chanN}
+		if e.trackCells {
+			e.allChans = append(e.allChans, ch)
+		}
+		if e.ev != nil && e.ev.active {
+			ch.Origin = e.originName(e.siteOf(fr, in))
+		}
+		return ch
 	case *ssa.MakeSlice:
 		ln := e.concreteIndex(fr, e.get(fr, in.Len).(*Term), in.Len.Type())
 		cp := e.concreteIndex(fr, e.get(fr, in.Cap).(*Term), in.Cap.Type())
@@ -394,6 +429,10 @@ func (e *Engine) eval(fr *frame, v ssa.Value) Value {
 		for i := range arr.E {
 			arr.E[i] = e.newCell(e.zero(et))
 		}
+		if e.ev != nil && e.ev.active {
+			arr.Origin = e.originName(e.siteOf(fr, in))
+			arr.Type = types.NewArray(et, int64(cp))
+		}
 		return SliceVal{Arr: arr, Off: 0, Len: ln, Cap: cp}
 	case *ssa.Slice:
 		return e.sliceOp(fr, in)
@@ -404,7 +443,12 @@ func (e *Engine) eval(fr *frame, v ssa.Value) Value {
 		switch m := x.(type) {
 		case *MapVal:
 			it := &mapIter{m: m}
+			if n, ok := e.sharedMap(m); ok {
+				it.shared = n
+				return it
+			}
 			if m != nil {
+				e.checkMapRead(m)
 				it.snap = e.mapSnapshot(fr, m)
 			}
 			return it
@@ -890,7 +934,7 @@ func (e *Engine) builtin(fr *frame, name string, args []Value, c *ssa.CallCommon
 			if x == nil {
 				return e.tb.BVConst(0, 64)
 			}
-			return e.tb.BVConst(uint64(e.mapLen(fr, x)), 64)
+			return e.mapLenTerm(fr, x)
 		case *ArrayVal:
 			return e.tb.BVConst(uint64(len(x.E)), 64)
 		case PtrVal:
@@ -1003,9 +1047,14 @@ func (e *Engine) builtin(fr *frame, name string, args []Value, c *ssa.CallCommon
 // ---- maps ----
 
 func (e *Engine) mapFind(fr *frame, m *MapVal, k Value) *mapEntry {
-	if m.Shared() && e.ev != nil {
-		return e.evMapFind(fr, m, k)
+	if n, ok := e.sharedMap(m); ok {
+		found, v := e.evMapLookup(fr, n, k)
+		if !found {
+			return nil
+		}
+		return &mapEntry{K: k, V: v}
 	}
+	e.checkMapRead(m)
 	for _, en := range m.Entries {
 		if en.Deleted {
 			continue
@@ -1017,9 +1066,30 @@ func (e *Engine) mapFind(fr *frame, m *MapVal, k Value) *mapEntry {
 	return nil
 }
 
-func (m *MapVal) Shared() bool { return false }
+// checkMapRead / checkMapWrite: a named (setup) map that a thread mutates becomes shared mutable state.
+func (e *Engine) checkMapRead(m *MapVal) {}
+
+func (e *Engine) checkMapWrite(m *MapVal) bool {
+	if e.ev == nil || !e.ev.active || m == nil {
+		return false
+	}
+	n, ok := e.mapName(m)
+	if !ok {
+		return false
+	}
+	if !e.ev.reg.mutable[n] {
+		e.ev.reg.setMutable(n, "map")
+		panic(restartExploration{"map " + n + " turned out to be mutable"})
+	}
+	return true
+}
 
 func (e *Engine) mapUpdate(fr *frame, m *MapVal, k, v Value) {
+	if e.checkMapWrite(m) {
+		n, _ := e.mapName(m)
+		e.evMapUpdate(fr, n, k, v)
+		return
+	}
 	if en := e.mapFind(fr, m, k); en != nil {
 		en.V = v
 		return
@@ -1028,6 +1098,11 @@ func (e *Engine) mapUpdate(fr *frame, m *MapVal, k, v Value) {
 }
 
 func (e *Engine) mapDelete(fr *frame, m *MapVal, k Value) {
+	if e.checkMapWrite(m) {
+		n, _ := e.mapName(m)
+		e.evMapDelete(fr, n, k)
+		return
+	}
 	if en := e.mapFind(fr, m, k); en != nil {
 		en.Deleted = true
 		// compact
@@ -1039,6 +1114,13 @@ func (e *Engine) mapDelete(fr *frame, m *MapVal, k Value) {
 		}
 		m.Entries = out
 	}
+}
+
+func (e *Engine) mapLenTerm(fr *frame, m *MapVal) *Term {
+	if n, ok := e.sharedMap(m); ok {
+		return e.evMapLen(fr, n)
+	}
+	return e.tb.BVConst(uint64(e.mapLen(fr, m)), 64)
 }
 
 func (e *Engine) mapLen(fr *frame, m *MapVal) int {
@@ -1098,6 +1180,24 @@ func (e *Engine) iterNext(fr *frame, it *mapIter, in *ssa.Next) Value {
 		return TupleVal{e.tb.Bool(true), e.tb.BVConst(uint64(i), 64), e.tb.BVConst(b.U, 32)}
 	}
 	tt := in.Type().(*types.Tuple)
+	if it.shared != "" {
+		e.beginAtomic()
+		idx := e.evMapNext(fr, it.shared, it.pos)
+		var res Value
+		if idx >= 0 {
+			it.pos = idx + 1
+			kr := e.ev.reg.mapKeys[it.shared][idx]
+			_, v := e.evMapLookup(fr, it.shared, kr.val)
+			res = TupleVal{e.tb.Bool(true), kr.val, v}
+		}
+		e.endAtomic()
+		if idx >= 0 {
+			return res
+		}
+		it.pos = 1 << 30
+		it.shared = "done"
+		it.m = nil
+	}
 	for it.m != nil && it.pos < len(it.snap) {
 		en := it.snap[it.pos]
 		it.pos++
@@ -1126,9 +1226,15 @@ func (e *Engine) chanClose(fr *frame, ch *ChanVal) {
 	if ch == nil {
 		e.progPanicAt(fr, "close of nil channel")
 	}
-	if e.ev != nil && ch.Cell != nil {
-		e.evChanClose(fr, ch)
-		return
+	if e.ev != nil && e.ev.active {
+		if _, ok := e.chanName(ch); ok || ch.Origin != "" {
+			if !ok {
+				ch.Name = ch.Origin
+				e.ev.chanByName[ch.Name] = ch
+			}
+			e.evChanClose(fr, ch)
+			return
+		}
 	}
 	if ch.Closed {
 		e.progPanicAt(fr, "close of closed channel")
@@ -1137,8 +1243,14 @@ func (e *Engine) chanClose(fr *frame, ch *ChanVal) {
 }
 
 func (e *Engine) chanRecv(fr *frame, ch *ChanVal, in *ssa.UnOp) Value {
-	if e.ev != nil && ch != nil && ch.Cell != nil {
-		e.evChanRecv(fr, ch)
+	evDone := false
+	if e.ev != nil && e.ev.active && ch != nil {
+		if _, ok := e.chanName(ch); ok {
+			e.evChanRecv(fr, ch)
+			evDone = true
+		}
+	}
+	if evDone {
 	} else {
 		if ch == nil || !ch.Closed {
 			// sequential mode: nobody else can close it -> run pending goroutines first
